@@ -100,22 +100,30 @@ Definition reimport (v : vec) : vec :=
 
 Variable m : method.
 
-(* the closure body's loop over [i, i+n): outputs pushed so far are kept when a step fails *)
-Fixpoint steps (src : Src) (st : St) (i n : nat) : list Out * res eerr St :=
+(* the closure body's loop over [i, i+n): outputs pushed so far are kept when a step fails.
+   ([step m src] is applied to the sources once per loop, so that what a closure computes before
+   its loop — lengths of the sources — is also computed once in the extracted code.) *)
+Fixpoint steps_with (f : St -> nat -> res eerr (St * Out)) (st : St) (i n : nat) : list Out * res eerr St :=
   match n with
   | O => ([], Ok st)
   | S n' =>
-    match step m src st i with
-    | Ok (st', o) => let '(os, r) := steps src st' (S i) n' in (o :: os, r)
+    match f st i with
+    | Ok (st', o) => let '(os, r) := steps_with f st' (S i) n' in (o :: os, r)
     | Err e => ([], Err e)
     | Panic => ([], Panic)
     end
   end.
+Definition steps (src : Src) : St -> nat -> nat -> list Out * res eerr St := steps_with (step m src).
 
-Fixpoint push_all (v : vec) (i : nat) (os : list Out) : res eerr vec :=
+(* checked_push_at for the outputs of one batch, index i, i+1, ...: the j-th push sees
+   len() = vlen v + j, so all index checks succeed iff the first one does *)
+Definition push_all (v : vec) (i : nat) (os : list Out) : res eerr vec :=
   match os with
   | [] => Ok v
-  | o :: t => let! v1 := checked_push_at v i o in push_all v1 (S i) t
+  | _ :: _ =>
+    if Nat.eqb i (vlen v) then
+      Ok (mkVec (stored v) (pushed v ++ os) (vv v) (cv v) (modified v) (disk v) (disk_cv v) (mem_real v) (pages_dirty v))
+    else Err UnexpectedIndex
   end.
 
 (* one invocation of the closure handed to compute_init *)
